@@ -174,6 +174,4 @@ def harnesses(tier):
     hs.append(Harness('xml_roundtrip', 'escape', h_xml, jobs=[{'len': L} for L in Lx], testgen=lambda rnd, g=gen_bytes(3): [dict(_job=2, **t) for t in g(rnd)],
                       desc='every NUL-free byte string up to length %d: reference XML attribute decoding of append_xml_encoded_string(s) == s; output has no raw markup/quote/line-break/tab characters, "&" only starts a known entity' % Lx[-1],
                       bounds='byte strings of length <= %d' % Lx[-1]))
-    if not q:
-        hs.append(Harness('opl_roundtrip_3cp', 'escape', h_opl_roundtrip, jobs=[{'cps': 3}], desc='strings of three scalar values', bounds='3 code points', wall=3000))
     return hs
